@@ -1023,8 +1023,11 @@ func c14RandomHistory(r *RunCtx, p *PRNG, sc int) error {
 				op.Creator = PickOne(p, w.provs)
 			case s < 93:
 				op.Creator = PickOne(p, w.outs)
-			case s < 96:
+			case s < 94:
 				op.Creator = lf.Prover
+			case s < 96 && len(lf.Entries) > 0:
+				// the two address fields the other way round: the prover itself signs, naming a provider of its own form
+				op.Creator, op.Prover = lf.Prover, lf.Entries[p.Intn(len(lf.Entries))].Provider
 			default:
 				op.Creator, op.Start = PickOne(p, w.provs), lf.Start+1 // another key
 			}
@@ -1076,6 +1079,12 @@ func (en *c14Enum) dfs(tr *c14Track, depth, used int, lowered, again bool, hist 
 	cs = append(cs, choice{sig(en.unlisted), used, lowered, again})
 	if len(en.listed) > 0 {
 		cs = append(cs, choice{sig(strings.ToUpper(en.listed[0])), used, lowered, again})
+	}
+	if len(en.listed) > 0 && depth < 2 {
+		// the two address fields the other way round: the prover signs, naming a provider listed on its own form
+		sw := sig(en.prover)
+		sw.Prover = en.listed[depth%len(en.listed)]
+		cs = append(cs, choice{sw, used, lowered, again})
 	}
 	if !lowered {
 		pr := w.e.App.StorageKeeper.GetParams(base)
